@@ -153,16 +153,18 @@ where
 
     /// Set memory permissions for the page at the given address
     pub fn set_permissions(&mut self, address: u64, len: u64, permissions: MemoryPermissions) {
-        let mut page_address = address & PAGE_MASK;
+        let page_address = address & PAGE_MASK;
+        // number of bytes from the start of the first page to the end of the range
         let total_length = len + (address - page_address);
-        while page_address < total_length {
+        let mut offset = 0;
+        while offset < total_length {
             RC::make_mut(
                 self.pages
-                    .entry(page_address)
+                    .entry(page_address + offset)
                     .or_insert_with(|| RC::new(Page::new(PAGE_SIZE))),
             )
             .set_permissions(Some(permissions));
-            page_address += PAGE_SIZE as u64;
+            offset += PAGE_SIZE as u64;
         }
     }
 
